@@ -114,6 +114,14 @@ func (v4proto) NewClient(conn net.PacketConn, T time.Duration, tries int, bufcap
 	}
 	if logf != nil {
 		opts = append(opts, nclient4.WithLogger(v4logger{logf}))
+	} else {
+		// the library's own loggers: they print (and therefore read) every message sent and received
+		switch (variant >> 1) & 3 {
+		case 1:
+			opts = append(opts, nclient4.WithSummaryLogger())
+		case 2:
+			opts = append(opts, nclient4.WithDebugLogger())
+		}
 	}
 	c, err := nclient4.NewWithConn(conn, clientHW, opts...)
 	if err != nil {
@@ -140,10 +148,19 @@ func xid4(x uint32) dhcpv4.TransactionID {
 }
 
 func (v4proto) BuildRequest(xid uint32, serial uint32) (interface{}, []byte) {
-	p, err := dhcpv4.NewDiscovery(clientHW, dhcpv4.WithTransactionID(xid4(xid)),
-		dhcpv4.WithGeneric(dhcpv4.GenericOptionCode(serialOpt4), serialBytes(serial)))
+	mods := []dhcpv4.Modifier{dhcpv4.WithTransactionID(xid4(xid)),
+		dhcpv4.WithGeneric(dhcpv4.GenericOptionCode(serialOpt4), serialBytes(serial))}
+	if serial%2 == 0 {
+		// request contents vary: a parameter request list out of order, a host name, seconds elapsed
+		mods = append(mods, dhcpv4.WithRequestedOptions(dhcpv4.OptionNTPServers, dhcpv4.OptionBootfileName, dhcpv4.OptionDomainNameServer),
+			dhcpv4.WithOption(dhcpv4.OptHostName("sim-host")))
+	}
+	p, err := dhcpv4.NewDiscovery(clientHW, mods...)
 	if err != nil {
 		panic(err)
+	}
+	if serial%4 == 0 {
+		p.NumSeconds = 3
 	}
 	return p, p.ToBytes()
 }
@@ -274,6 +291,15 @@ func (v6proto) NewClient(conn net.PacketConn, T time.Duration, tries int, bufcap
 	}
 	if variant&2 != 0 {
 		opts = append(opts, nclient6.WithBroadcastAddr(&net.UDPAddr{IP: net.ParseIP("ff02::1:2"), Port: 547}))
+	} else if variant&4 != 0 {
+		// a configured unicast server: irrelevant to calls that name their destination
+		opts = append(opts, nclient6.WithBroadcastAddr(&net.UDPAddr{IP: net.ParseIP("2001:db8::547"), Port: 547}))
+	}
+	switch (variant >> 3) & 3 {
+	case 1:
+		opts = append(opts, nclient6.WithSummaryLogger())
+	case 2:
+		opts = append(opts, nclient6.WithDebugLogger())
 	}
 	if bufcap >= 0 {
 		opts = append(opts, nclient6.SimWithBufferCap(bufcap))
@@ -313,7 +339,12 @@ func serialOption6(serial uint32) dhcpv6.Modifier {
 }
 
 func (v6proto) BuildRequest(xid uint32, serial uint32) (interface{}, []byte) {
-	m, err := dhcpv6.NewSolicit(clientHW, dhcpv6.WithClientID(clientDUID), withXid6(xid), serialOption6(serial))
+	mods := []dhcpv6.Modifier{dhcpv6.WithClientID(clientDUID), withXid6(xid), serialOption6(serial)}
+	if serial%2 == 0 {
+		// a requested-options list that is not in ascending order (23, 24, 17), an elapsed-time option
+		mods = append(mods, dhcpv6.WithRequestedOptions(dhcpv6.OptionVendorOpts), dhcpv6.WithOption(dhcpv6.OptElapsedTime(0)))
+	}
+	m, err := dhcpv6.NewSolicit(clientHW, mods...)
 	if err != nil {
 		panic(err)
 	}
